@@ -196,6 +196,11 @@ pub struct TlDesc {
     pub timing: Timing,
     pub default_ez: Ez,
     pub kfs: Vec<KfDesc>,
+    /// order of the builder's setter calls (must not matter): 0 = timing, then keyframes;
+    /// 1 = keyframes, then timing; 2 = half of the keyframes, timing, the rest;
+    /// 3 = a different provisional duration first, keyframes, then the real timing
+    #[serde(default)]
+    pub order: u8,
 }
 
 pub fn to_repeat(r: Rep) -> Repeat {
@@ -236,13 +241,29 @@ impl TlDesc {
 
     /// Builds the real timeline through the public builder path, keyframes in the listed order.
     pub fn build(&self) -> PTimeline {
-        let mut b = P::timeline()
-            .duration_seconds(self.timing.cycle)
-            .delay_seconds(self.timing.delay)
-            .repeat(to_repeat(self.timing.repeat))
-            .reverse(self.timing.reverse)
-            .default_easing(self.default_ez.to_mina());
-        for k in &self.kfs {
+        let timing = |b: mina::TimelineConfiguration<PKeyframeData>| {
+            b.duration_seconds(self.timing.cycle).delay_seconds(self.timing.delay).repeat(to_repeat(self.timing.repeat)).reverse(self.timing.reverse).default_easing(self.default_ez.to_mina())
+        };
+        let mut b = P::timeline();
+        let n = self.kfs.len();
+        let split = match self.order % 4 {
+            0 => 0,
+            1 | 3 => n,
+            _ => n / 2,
+        };
+        if self.order % 4 == 0 {
+            b = timing(b);
+        }
+        if self.order % 4 == 3 {
+            b = b.duration_seconds(self.timing.cycle * 3.0 + 1.0).delay_seconds(5.0).reverse(!self.timing.reverse);
+        }
+        for k in &self.kfs[..split] {
+            b = b.keyframe(Self::build_kf(k));
+        }
+        if self.order % 4 != 0 {
+            b = timing(b);
+        }
+        for k in &self.kfs[split..] {
             b = b.keyframe(Self::build_kf(k));
         }
         TimelineBuilder::build(b)
@@ -430,7 +451,7 @@ pub fn tl_strategy_with(timing: impl Strategy<Value = Timing>, max_kfs: usize) -
         kfs
     });
     let kfs = prop_oneof![16 => small, 3 => near, 1 => large];
-    (timing, ez_strategy(), kfs).prop_map(|(timing, default_ez, kfs)| TlDesc { timing, default_ez, kfs }.sanitize())
+    (timing, ez_strategy(), kfs, 0u8..4).prop_map(|(timing, default_ez, kfs, order)| TlDesc { timing, default_ez, kfs, order }.sanitize())
 }
 
 pub fn tl_strategy() -> impl Strategy<Value = TlDesc> {
@@ -440,7 +461,7 @@ pub fn tl_strategy() -> impl Strategy<Value = TlDesc> {
 /// Timelines for animator checks: built-in easings without Back, distinct positions.
 pub fn tl_strategy_animator(timing: impl Strategy<Value = Timing>) -> impl Strategy<Value = TlDesc> {
     (timing, ez_builtin_strategy(), prop::collection::vec(kf_strategy(ez_builtin_strategy()), 0..=5))
-        .prop_map(|(timing, default_ez, kfs)| TlDesc { timing, default_ez, kfs }.distinct_positions())
+        .prop_map(|(timing, default_ez, kfs)| TlDesc { timing, default_ez, kfs, order: 0 }.distinct_positions())
 }
 
 // ---------------------------------------------------------------------------------------------
